@@ -94,6 +94,9 @@ def make_cases(seed, tier):
         m = rng.choice(["yescrypt", "gost_yescrypt"])
         cases.append(("unsupported-parameter/" + m, gen.gen_phrase(rng, rng.choice([0, 5, 40])),
                       gen.gen_yes_unsupported(rng, m), rng.choice(entries), "="))
+    for e in ("crypt_rn", "crypt_r", "crypt_ra", "crypt"):
+        cases.append(("sha1-cost/sha1crypt", b"pw", b"$sha1$$GGXpNqoJvglVTkGU$", e, "="))
+        cases.append(("sha1-cost/sha1crypt", b"pw", b"$sha1$$saltsalt", e, "="))
     # sha1crypt costs outside the documented range, in cheap spellings (strtoul wraps "-2^64+1" to 1)
     for f in (b"-18446744073709551615", b"-18446744073709551516", b"-0", b"-00"):
         for e in ("crypt_rn", "crypt_r", "crypt_ra", "crypt"):
